@@ -174,6 +174,7 @@ class SkBaseTransformLearner(SkBaseTransform):
         if "method" in values:
             self.method = values["method"]
             self._set_method(values["method"])
+        return self
 
     #################
     # common methods
